@@ -43,7 +43,8 @@ Sub(k, kind0, at, t, iv) ==
     /\ rep' = IF kind0 = "repeat" THEN [rep EXCEPT ![k] = iv] ELSE rep
     /\ eaSet' = [eaSet EXCEPT ![k] = TRUE]
     /\ qsubT' = IF kind # "schedule" /\ ~cancelled[k] THEN [qsubT EXCEPT ![k] = t] ELSE qsubT
-    /\ lastKind' = [lastKind EXCEPT ![k] = kind]
+    \* "schedule1": the only submission since the last start decision (or since the task was unscheduled) is this Schedule call
+    /\ lastKind' = [lastKind EXCEPT ![k] = IF kind = "schedule" /\ @ = "none" THEN "schedule1" ELSE kind]
     /\ mdMs' = mdMs
     /\ subs' = [subs EXCEPT ![k] = @ + 1]
     /\ pend' = [pend EXCEPT ![k] = IF cancelled[k] THEN "none"
@@ -82,7 +83,10 @@ Checked(k, t, by) ==
     \* of a schedule entry placed over a queued one has come): never a task that still waits within its max delay
     /\ (by = "sh" /\ qsubT[k] >= 0) =>
           (IF lastKind[k] = "schedule" THEN t >= schedAt[k] - EarlyMs ELSE t >= qsubT[k] + mdMs - EarlyMs)
-    /\ qsubT' = [qsubT EXCEPT ![k] = -1]
+    \* a task that was only scheduled, once, since its last start is promoted into the queue when its time has come (not
+    \* before) and waits there like a queued task: the schedule handler starts it itself only a max delay later
+    /\ (by = "sh" /\ qsubT[k] < 0 /\ pend[k] = "sched" /\ lastKind[k] = "schedule1") => t >= schedAt[k] + mdMs - EarlyMs
+    /\ qsubT' = [qsubT EXCEPT ![k] = -1] /\ lastKind' = [lastKind EXCEPT ![k] = "none"]
     /\ ~cancelled[k]                                        \* never started once cancelled while waiting
     /\ (pend[k] = "sched") => t >= schedAt[k] - EarlyMs      \* an only-scheduled task is not started early
     /\ begins[k] + (IF committed[k] THEN 1 ELSE 0) < subs[k] \* not more often than submitted
@@ -94,7 +98,7 @@ Checked(k, t, by) ==
     /\ holder' = IF ordered THEN k ELSE holder
     /\ prioQ' = Remove(prioQ, k) /\ normQ' = Remove(normQ, k)
     /\ eaSet' = [eaSet EXCEPT ![k] = FALSE]     \* the execution time is cleared together with the start decision
-    /\ UNCHANGED <<n, ordered, running, subs, begins, cancelled, schedAt, mdMs, lastKind, rep>>
+    /\ UNCHANGED <<n, ordered, running, subs, begins, cancelled, schedAt, mdMs, rep>>
 
 Begin(k, t) ==
     /\ k \in T /\ ~running[k]                               \* never concurrently with itself
@@ -113,7 +117,8 @@ End(k, t) ==
     /\ holder' = IF holder = k THEN 0 ELSE holder
     /\ IF rep[k] > 0 /\ ~cancelled[k] /\ ~eaSet[k]
        THEN /\ subs' = [subs EXCEPT ![k] = @ + 1] /\ pend' = [pend EXCEPT ![k] = "sched"]
-            /\ schedAt' = [schedAt EXCEPT ![k] = t + rep[k]] /\ lastKind' = [lastKind EXCEPT ![k] = "schedule"]
+            /\ schedAt' = [schedAt EXCEPT ![k] = t + rep[k]]
+            /\ lastKind' = [lastKind EXCEPT ![k] = IF @ = "none" THEN "schedule1" ELSE "schedule"]
             /\ eaSet' = [eaSet EXCEPT ![k] = TRUE]
        ELSE UNCHANGED <<subs, pend, schedAt, lastKind, eaSet>>
     /\ UNCHANGED <<n, ordered, committed, begins, cancelled, prioQ, normQ, mdMs, qsubT, rep>>
